@@ -477,10 +477,12 @@ func init() {
 			us, es := restoreUnitsOf(p, tier, true)
 			us2, es2 := buildDecorateNode(p, tier)
 			us3, es3 := buildPrintOutput(p, tier)
+			us4, es4 := buildAttachment(p, tier)
+			us3, es3 = append(us3, us4...), append(es3, es4...)
 			return append(append(us, us2...), us3...), append(append(es, es2...), es3...)
 		},
 		Select: func(n string) bool {
-			return reFields.MatchString(n) || strings.HasSuffix(n, "#tape:children_once") || reCommentsOnce.MatchString(n) || strings.Contains(n, "#output:")
+			return reFields.MatchString(n) || strings.HasSuffix(n, "#tape:children_once") || reCommentsOnce.MatchString(n) || strings.Contains(n, "#output:") || isAttachObligation(n)
 		},
 		Siblings: "C11 (maps), C12 (position space), C04 (tape)",
 		Assumptions: []string{
@@ -500,7 +502,7 @@ func init() {
 			return append(us, us2...), append(es, es2...)
 		},
 		Select: func(n string) bool {
-			return reTape.MatchString(n) || strings.Contains(n, "#accessor:") || reCommentsOnce.MatchString(n)
+			return reTape.MatchString(n) || strings.Contains(n, "#accessor:") || reCommentsOnce.MatchString(n) || strings.Contains(n, "#iface:Decorations")
 		},
 		Siblings: "C12 (position space), C11 (maps), C03 (fields)",
 	})
